@@ -715,6 +715,11 @@ Definition coloc_options (inp : input) (rm : list Z) : list (strategy * list sto
   | _ => [(replica_strategy (i_cfg inp), minus (region_stores (i_stores inp) (i_region inp)))]
   end.
 
+(* an operator that adds several peers: every new peer is judged against the stores of the OTHER new peers as well (the isolation
+   level has to hold among all peers the operator leaves behind, not only against the peers of before) *)
+Definition with_added (inp : input) (others : list peer) (opts : list (strategy * list store)) : list (strategy * list store) :=
+  map (fun so => (fst so, List.app (snd so) (flat_map (fun o => match find_store (i_stores inp) (p_store o) with Some s => [s] | None => [] end) others))) opts.
+
 Definition removal_allowed (inp : input) (rm : list Z) : bool :=
   match eff_entry inp with
   | ERule => forallb rf_satisfied (fit_rules (i_fit inp))
@@ -763,7 +768,8 @@ Definition monitor (c : case) : option string :=
           let fin := final_state tr s0 in
           let ad := added (rs_peers s0) (rs_peers fin) in
           let rm := removed (rs_peers s0) (rs_peers fin) in
-          match flat_map (fun t => match target_faults inp (coloc_options inp rm) t with Some w => [w] | None => [] end) ad with
+          match flat_map (fun t => match target_faults inp (with_added inp (filter (fun o => negb (p_store o =? p_store t)) ad)
+                                                               (coloc_options inp rm)) t with Some w => [w] | None => [] end) ad with
           | w :: _ => Some w
           | [] =>
               if (List.length (rs_peers fin) <? List.length (rs_peers s0))%nat && negb (removal_allowed inp rm)
